@@ -404,6 +404,17 @@ def replay_ce(ce):
             if not okk:
                 bad = True
                 details.append('%s: x = %s ; `x %s %s` -> %s, x afterwards %s' % (prof, cur, sym, lits[t1_][0], r, after))
+        # the builtin switch: every history of set_builtin_functions_disabled ends in the last value set, variables untouched
+        hist = [[], [1], [0], [1, 0], [0, 1], [1, 1, 0], [0, 0, 1], [1, 0, 1, 0]]
+        for start in (False, True):
+            t2 = ''.join(replay.case_text('h%d' % i, 'none', '', vars=[('y', ('Int', 1))], disabled=start, ops=['disable %d' % b for b in h]) for i, h in enumerate(hist))
+            o2 = replay.run_cases(t2, prof)
+            for i, h in enumerate(hist):
+                want = bool(h[-1]) if h else start
+                if o2['h%d' % i].get('disabled') != want or o2['h%d' % i]['vars'] != {'y': ('Int', 1)}:
+                    bad = True
+                    details.append('%s: builtins disabled = %s, then set_builtin_functions_disabled%s -> disabled %s, variables %s'
+                                   % (prof, start, h, o2['h%d' % i].get('disabled'), o2['h%d' % i]['vars']))
         f = out['fresh']
         if f.get('result') != ('Ok', ('Int', 4)) or f['vars'].get('z') != ('Int', 4) or f['vars'].get('y') != ('Int', 1):
             bad = True
